@@ -17,6 +17,7 @@
 From Coq Require Import PrimFloat.
 From Coq Require Import ZArith List Bool Reals Lra Permutation.
 From BZ Require Import Base.Ops Hand.Nodelist Proofs.C08.
+From BZ Require Gen.Sample Gen.Nodelist Proofs.Bridge3.
 Import ListNotations.
 Open Scope R_scope.
 
@@ -96,6 +97,14 @@ Theorem C08_parse_cubic_repr :
   (forall x : T, parse (fmt x) = Some x) -> (forall x : T, fmt x <> "") -> (forall x : T, str_all fmt_char_ok (fmt x) = true) ->
   forall s : seg4 T, parse_cubic parse (repr_cubic fmt s) = Some s.
 Proof. exact parse_cubic_repr. Qed.
+(* the node-list conversions of the hand model ARE the ones regenerated from the source (Proofs/Bridge3.v), for every scalar carrier; node types
+   "line"/"curve"/"offcurve" are the three constructors on both sides (node_of is a bijection), a Python exception is None on the hand side *)
+Theorem C08_toNodelist_is_generated :
+  forall (T : Type) (O : Ops T) (c : bool) (segs : list (segment T)), toNodelist segs = option_map (map (@Bridge3.node_of T)) (Bridge3.opt_of_outcome (Gen.Nodelist.SegRep_toNodelist O (Gen.Nodelist.MkSegRep c segs))).
+Proof. exact @Bridge3.toNodelist_gen. Qed.
+Theorem C08_fromNodelist_is_generated :
+  forall (T : Type) (O : Ops T) (c : bool) (nl : list (Gen.Nodelist.gnode T)), fromNodelist O c (map (@Bridge3.node_of T) nl) = option_map (@Gen.Nodelist.sr_segments T) (Bridge3.opt_of_outcome (Gen.Nodelist.SegRep_fromNodelist O c nl)).
+Proof. exact @Bridge3.fromNodelist_gen. Qed.
 
 Print Assumptions C08_nodes_roundtrip_open.
 Print Assumptions C08_nodes_roundtrip_closed.
@@ -117,3 +126,5 @@ Print Assumptions C08_parse_point_repr.
 Print Assumptions C08_parse_line_repr.
 Print Assumptions C08_parse_quad_repr.
 Print Assumptions C08_parse_cubic_repr.
+Print Assumptions C08_toNodelist_is_generated.
+Print Assumptions C08_fromNodelist_is_generated.
